@@ -30,6 +30,7 @@ type HarnessSpec struct {
 	BudgetS  int            `json:"budget_s,omitempty"`  // wall clock budget for this harness
 	Final    []string       `json:"final_solvers,omitempty"`
 	Bounds   string         `json:"bounds,omitempty"`
+	Solver   string         `json:"solver,omitempty"`
 }
 
 type TierSpec struct {
@@ -176,6 +177,7 @@ func cmdCheck(args []string) {
 		cfg.KnownOpen = knownOpen
 		cfg.MaxPaths = hs.MaxPaths
 		cfg.Params = hs.Params
+		cfg.Primary = solverName(hs.Solver)
 		if hs.MaxSteps > 0 {
 			cfg.MaxSteps = hs.MaxSteps
 		}
